@@ -50,6 +50,13 @@ def chk_accessors(K):
     insts = [(ck, H.fill_all(H.make(K, ck), data)) for ck in H.child_kinds(K)] + [("reloaded, bins not in increasing order", h) for h in unordered(K)]
     for ck, h in insts:
         before = H.js(h)
+        for what, fn in (("hash", hash), ("repr", repr), ("str", str)):
+            try:
+                fn(h)
+            except Exception:
+                pass
+            if H.js(h) != before:
+                return f"{K}[{ck}]: {what}() changed the aggregator"
         for name in accessor_names(h):
             static = inspect.getattr_static(type(h), name)
             if isinstance(static, property):
